@@ -236,8 +236,7 @@ class SequencedData(SoupMessage, indicator='S', description='Sequenced Data'):
 
     @classmethod
     def unpack(cls, bytes_):
-        len_, _ = struct.unpack(SoupMessage.Format, bytes_[:3])
-        return SequencedData(bytes_[3:] if len_ > 1 else b'')
+        return SequencedData(bytes_[3:] if _unpack_length(bytes_) > 1 else b'')
 
 
 @attrs.define(slots=False, auto_attribs=True)
@@ -260,8 +259,7 @@ class UnSequencedData(SoupMessage, indicator='U', description='UnSequenced Data'
 
     @classmethod
     def unpack(cls, bytes_):
-        len_, _ = struct.unpack(SoupMessage.Format, bytes_[:3])
-        return UnSequencedData(bytes_[3:] if len_ > 1 else b'')
+        return UnSequencedData(bytes_[3:] if _unpack_length(bytes_) > 1 else b'')
 
 
 @attrs.define(slots=False, auto_attribs=True)
@@ -284,8 +282,7 @@ class Debug(SoupMessage, indicator='+', description='Debug'):
 
     @classmethod
     def unpack(cls, bytes_):
-        len_, _ = struct.unpack(SoupMessage.Format, bytes_[:3])
-        return Debug(bytes_[3:].decode('ascii') if len_ > 1 else '')
+        return Debug(bytes_[3:].decode('ascii') if _unpack_length(bytes_) > 1 else '')
 
 
 @attrs.define(slots=False, auto_attribs=True)
@@ -334,6 +331,11 @@ class LogoutRequest(SoupMessage, indicator='O', description='LogoutRequest'):
 
 def _pack(data, field_size):
     return data.ljust(field_size).encode('ascii')
+
+
+def _unpack_length(bytes_):
+    # the length prefix of a received packet is unsigned: packets of 32767 bytes and more are legal
+    return struct.unpack('!H c', bytes_[:3])[0]
 
 
 def _unpack_string(bytes_):
